@@ -202,6 +202,140 @@ theorem lines_vs_form (s : Scene) (p : Seg × List LV) (hp : p ∈ s.lines.vs) :
   exact ⟨hv, rfl⟩
 
 
+/-! ### merged lines are pairwise disjoint -/
+
+/-- the two closed segments lie on one line and share a point -/
+def Meets (a b : Seg) : Prop := a.p = b.p ∧ ∃ u, a.b ≤ u ∧ u ≤ a.f ∧ b.b ≤ u ∧ u ≤ b.f
+
+theorem overlaps_iff_meets {a b : Seg} (wa : a.b ≤ a.f) (wb : b.b ≤ b.f) : a.overlaps b = true ↔ Meets a b := by
+  unfold Seg.overlaps Meets
+  simp only [Bool.and_eq_true, Bool.or_eq_true, decide_eq_true_eq, beq_iff_eq]
+  constructor
+  · rintro ⟨hp, h⟩
+    refine ⟨hp, ?_⟩
+    rcases h with ⟨h1, h2⟩ | ⟨h1, h2⟩
+    · exact ⟨a.b, Rat.le_refl, wa, h1, h2⟩
+    · exact ⟨b.b, h1, h2, Rat.le_refl, wb⟩
+  · rintro ⟨hp, u, u1, u2, u3, u4⟩
+    refine ⟨hp, ?_⟩
+    by_cases h : b.b ≤ a.b
+    · left; exact ⟨h, by grind⟩
+    · right; exact ⟨by grind, by grind⟩
+
+theorem merge_wf {a b : Seg} (wa : a.b ≤ a.f) : (a.merge b).b ≤ (a.merge b).f := by
+  unfold Seg.merge; simp only; grind
+
+/-- a segment meeting the hull of two segments that share a point meets one of them -/
+theorem meets_merge {x a b : Seg} (hab : Meets a b) (h : Meets x (a.merge b)) : Meets x a ∨ Meets x b := by
+  obtain ⟨hp, u, u1, u2, u3, u4⟩ := hab
+  obtain ⟨hxp, w, w1, w2, w3, w4⟩ := h
+  unfold Seg.merge at hxp w3 w4
+  simp only at hxp w3 w4
+  -- w lies in the hull [min a.b b.b, max a.f b.f]; move it into a or b keeping it inside x
+  by_cases hwa : a.b ≤ w ∧ w ≤ a.f
+  · exact Or.inl ⟨hxp, w, w1, w2, hwa.1, hwa.2⟩
+  by_cases hwb : b.b ≤ w ∧ w ≤ b.f
+  · exact Or.inr ⟨hxp.trans hp, w, w1, w2, hwb.1, hwb.2⟩
+  -- w is in neither although both contain u: impossible, the hull is the union
+  exfalso
+  grind
+
+/-- invariant of the segment list: well formed, pairwise not meeting -/
+def Disjoint (l : List Seg) : Prop :=
+  (∀ s ∈ l, s.b ≤ s.f) ∧ l.Pairwise (fun a b => ¬ Meets a b)
+
+theorem pairwise_ne {α} {R : α → α → Prop} (hs : ∀ a b, R a b → R b a) {l : List α} (hp : l.Pairwise R)
+    {x y : α} (hx : x ∈ l) (hy : y ∈ l) (hne : x ≠ y) : R x y := by
+  induction l with
+  | nil => simp at hx
+  | cons a r ih =>
+    obtain ⟨h1, h2⟩ := List.pairwise_cons.mp hp
+    rcases List.mem_cons.mp hx with rfl | hx'
+    · rcases List.mem_cons.mp hy with rfl | hy'
+      · exact absurd rfl hne
+      · exact h1 y hy'
+    · rcases List.mem_cons.mp hy with rfl | hy'
+      · exact hs _ _ (h1 x hx')
+      · exact ih h2 hx' hy'
+
+theorem meets_symm {a b : Seg} (h : Meets a b) : Meets b a := by
+  obtain ⟨hp, u, u1, u2, u3, u4⟩ := h
+  exact ⟨hp.symm, u, u3, u4, u1, u2⟩
+
+/-- the fold of `insertSeg`: `m` = hull so far (contains `s`), every merged piece meets `s` -/
+theorem foldl_merge_meets (s : Seg) (x : Seg) :
+    ∀ (ov : List Seg) (m : Seg), (m.p = s.p ∧ m.b ≤ s.b ∧ s.f ≤ m.f ∧ m.b ≤ m.f) →
+      (∀ c ∈ ov, c.b ≤ c.f ∧ Meets c s) → Meets x (ov.foldl Seg.merge m) →
+      Meets x m ∨ ∃ c ∈ ov, Meets x c := by
+  intro ov
+  induction ov with
+  | nil => intro m _ _ h; exact Or.inl h
+  | cons c r ih =>
+    intro m hm hov hx
+    obtain ⟨hp, hb, hf, wm⟩ := hm
+    obtain ⟨wc, hcs⟩ := hov c (by simp)
+    have hmc : Meets m c := by
+      obtain ⟨hcp, u, u1, u2, u3, u4⟩ := hcs
+      exact ⟨hp.trans hcp.symm, u, by grind, by grind, u1, u2⟩
+    simp only [List.foldl_cons] at hx
+    have := ih (m.merge c) ⟨hp, by unfold Seg.merge; simp only; grind, by unfold Seg.merge; simp only; grind,
+      merge_wf wm⟩ (fun c' hc' => hov c' (by simp [hc'])) hx
+    rcases this with h | ⟨c', hc', h⟩
+    · rcases meets_merge hmc h with h | h
+      · exact Or.inl h
+      · exact Or.inr ⟨c, by simp, h⟩
+    · exact Or.inr ⟨c', by simp [hc'], h⟩
+
+theorem foldl_merge_wf (ov : List Seg) (m : Seg) (wm : m.b ≤ m.f) : (ov.foldl Seg.merge m).b ≤ (ov.foldl Seg.merge m).f := by
+  induction ov generalizing m with
+  | nil => exact wm
+  | cons c r ih => exact ih _ (merge_wf wm)
+
+theorem insertSeg_disjoint {l : List Seg} {s : Seg} (hl : Disjoint l) (ws : s.b ≤ s.f) :
+    Disjoint (insertSeg l s) := by
+  obtain ⟨hwf, hpw⟩ := hl
+  unfold insertSeg
+  constructor
+  · intro x hx
+    rcases List.mem_append.mp hx with hx | hx
+    · exact hwf x (List.mem_filter.mp hx).1
+    · simp only [List.mem_singleton] at hx; subst hx
+      exact foldl_merge_wf _ _ ws
+  · rw [List.pairwise_append]
+    refine ⟨hpw.sublist List.filter_sublist, by simp, ?_⟩
+    intro x hx y hy
+    simp only [List.mem_singleton] at hy; subst hy
+    obtain ⟨hxl, hxo⟩ := List.mem_filter.mp hx
+    have wx := hwf x hxl
+    have hxs : ¬ Meets x s := by
+      intro h
+      have := (overlaps_iff_meets wx ws).mpr h
+      simp [this] at hxo
+    intro hm
+    have := foldl_merge_meets s x (l.filter fun c => c.overlaps s) s ⟨rfl, Rat.le_refl, Rat.le_refl, ws⟩
+      (fun c hc => by
+        obtain ⟨hc1, hc2⟩ := List.mem_filter.mp hc
+        exact ⟨hwf c hc1, (overlaps_iff_meets (hwf c hc1) ws).mp hc2⟩) hm
+    rcases this with h | ⟨c, hc, h⟩
+    · exact hxs h
+    · obtain ⟨hc1, hc2⟩ := List.mem_filter.mp hc
+      -- x and c are two different members of the old list (one overlaps s, the other does not)
+      have hne : x ≠ c := by
+        intro e; subst e; simp [hc2] at hxo
+      exact pairwise_ne (fun a b hab hba => hab (meets_symm hba)) hpw hxl hc1 hne h
+
+theorem mergeAll_disjoint (raw : List Seg) (hw : ∀ s ∈ raw, s.b ≤ s.f) : Disjoint (mergeAll raw) := by
+  unfold mergeAll
+  suffices H : ∀ (acc : List Seg), Disjoint acc → (∀ s ∈ raw, s.b ≤ s.f) → Disjoint (raw.foldl insertSeg acc) from
+    H [] ⟨by simp, by simp⟩ hw
+  induction raw with
+  | nil => intro acc ha _; exact ha
+  | cons s r ih =>
+    intro acc ha hr
+    exact ih (fun s' hs' => hw s' (by simp [hs'])) (insertSeg acc s) (insertSeg_disjoint ha (hr s (by simp)))
+      (fun s' hs' => hr s' (by simp [hs']))
+
+
 /-! ### separated boxes -/
 
 /-- two routing boxes are separated (disjoint as closed rectangles) -/
